@@ -11,6 +11,9 @@
      WParked  blocked in the outer select {ctx | cancel | timer}
      WPopped2 ctx was taken without flags, not yet in the inner select
      WParked2 blocked in the inner select {cancel | timer}
+     WChosen  a select has taken the timer case (or the ctx case with IgnorePendingTimeouts): Poll is on a return
+              path but has not yet re-checked the cancel channel / returned the value.  A Cancel that completes
+              here does not wake anybody (the goroutine is no longer in the select); only the re-check sees it.
      WDeliv   Poll returned the value (the wrapper of TaskExecutor is about to take its mutex)
      WRun     the callback is running
      WExit    Poll returned the empty value: the Executor worker left its loop.
@@ -105,7 +108,7 @@ Fixpoint index_of (e : nat) (h : list elem) : option nat :=
 
 Inductive wst :=
 | WIdle | WWait | WPopped (e : elem) | WParked (e : elem) | WPopped2 (e : elem) | WParked2 (e : elem)
-| WDeliv (e : elem) | WRun (e : elem) | WExit.
+| WChosen (e : elem) | WDeliv (e : elem) | WRun (e : elem) | WExit.
 
 Inductive wmode := Unconditional | IfOwn.
 
@@ -173,7 +176,8 @@ Definition is_due (s : st) (e : elem) : bool := N.leb (etime e) (now s).
 
 (* ---------- Poll's decision to return the value of e (with the repaired re-check) ---------- *)
 
-(* result: the new state and the worker's next control point *)
+(* result: the new state and the worker's next control point.  This is the step taken from WChosen: the select
+   has chosen the return path earlier, in a separate step. *)
 Definition deliver (s : st) (e : elem) : st * wst :=
   if recheck s && memb (eid e) (closed s)
   then (emit s (ESkip (eid e)), WIdle)
@@ -182,7 +186,7 @@ Definition deliver (s : st) (e : elem) : st * wst :=
 (* the ctx.Done() branch of the outer select *)
 Definition ctx_branch (s : st) (e : elem) : st * wst :=
   if fcancel s then (emit s (EDiscard (eid e)), WExit)
-  else if fignore s then deliver s e
+  else if fignore s then (s, WChosen e)
   else (s, WPopped2 e).
 
 Inductive branch := BCtx | BCan | BTim.
@@ -196,7 +200,7 @@ Definition take_branch (s : st) (e : elem) (b : branch) : st * wst :=
   match b with
   | BCtx => ctx_branch s e
   | BCan => (emit s (ESkip (eid e)), WIdle)
-  | BTim => deliver s e
+  | BTim => (s, WChosen e)
   end.
 
 (* ---------- one atomic step of worker w ---------- *)
@@ -223,8 +227,12 @@ Definition worker_step (s : st) (w : nat) (choice : nat) : st :=
         | [] => fin (s, WParked2 e)
         | r => fin (take_branch s e (nth (choice mod length r) r BTim))
         end
-    | WParked e => if is_due s e then fin (deliver s e) else s
-    | WParked2 e => if is_due s e then fin (deliver s e) else s
+    | WParked e => if is_due s e then fin (s, WChosen e) else s
+    | WParked2 e => if is_due s e then fin (s, WChosen e) else s
+    | WChosen e =>
+        (* the guard is true in every reachable state ([chosen_ok_run], Window.v): a worker gets to WChosen e only
+           through a timer case (e is due, and stays due) or the IgnorePendingTimeouts path (the flags stay) *)
+        if is_due s e || (shut s && fignore s) then fin (deliver s e) else s
     | WDeliv e =>
         match ekey e, mode s with
         | Some k, IfOwn =>
